@@ -58,6 +58,29 @@ func (ec earlyCloser) Token() (xml.Token, error) {
 	return tok, err
 }
 
+// stickyReader is a token reader that remembers the first error other than
+// io.EOF and returns it for every later read. It is placed under the reader
+// given to handlers so that a stream-level problem inside an element (a
+// disallowed comment, processing instruction or directive, a stream-namespaced
+// element, malformed XML) still ends the session when the handler ignores the
+// error it was given: the error resurfaces when the session advances to the end
+// of the element.
+type stickyReader struct {
+	r   xml.TokenReader
+	err error
+}
+
+func (sr *stickyReader) Token() (xml.Token, error) {
+	if sr.err != nil {
+		return nil, sr.err
+	}
+	tok, err := sr.r.Token()
+	if err != nil && err != io.EOF {
+		sr.err = err
+	}
+	return tok, err
+}
+
 // deferWriter is a token writer that only takes out a lock on the session
 // writer if EncodeToken is actually called. It is passed into handlers to defer
 // taking out the lock as late as possible (or not at all if the handler only
@@ -637,7 +660,7 @@ func handleInputStream(s *Session, handler Handler) (err error) {
 	defer w.Close()
 	rw := &responseChecker{
 		TokenReader: earlyCloser{
-			r: xmlstream.InnerElement(r),
+			r: xmlstream.InnerElement(&stickyReader{r: r}),
 			c: rc,
 		},
 		TokenWriter: w,
